@@ -308,10 +308,23 @@ pub const LOG_SCHED: u8 = 2;
 pub const LOG_FORMAT: u8 = 3;
 
 static LOG_MODE: AtomicU8 = AtomicU8::new(LOG_OFF);
+/// Second ambient configuration ("B"): wherever a check asks for no logger output, a logger at Trace level that
+/// formats every record is active instead, and the providers built by `e2e::judge` are strict, not ready at once
+/// and answer late. The outcome of a validation must not depend on either.
+static AMBIENT_B: std::sync::atomic::AtomicBool = std::sync::atomic::AtomicBool::new(false);
+
+pub fn ambient_b() -> bool {
+    AMBIENT_B.load(Ordering::Relaxed)
+}
+
+pub fn set_ambient_b(on: bool) {
+    AMBIENT_B.store(on, Ordering::SeqCst);
+}
 pub static LOG_RECORDS_TOTAL: AtomicU64 = AtomicU64::new(0);
 
 thread_local! {
     pub static FORMAT_LOGS: std::cell::Cell<bool> = std::cell::Cell::new(false);
+    static TRACE_SEEN: std::cell::Cell<u32> = std::cell::Cell::new(0);
     pub static CAPTURE: RefCell<Vec<(log::Level, String, String)>> = RefCell::new(Vec::new());
     /// per-thread scheduling hook (set by the thread scheduler for its worker threads)
     pub static SCHED_HOOK: RefCell<Option<Box<dyn Fn(&str)>>> = RefCell::new(None);
@@ -343,7 +356,11 @@ impl log::Log for HarnessLogger {
                 }
             }
             LOG_FORMAT => {
-                if FORMAT_LOGS.with(|f| f.get()) {
+                // ambient B: the arguments of every record have been evaluated by the time we get here (the
+                // log macros do that whenever the maximum level admits the record); formatting is done for
+                // records at Debug and above, and for every 16th Trace record
+                let ambient = ambient_b() && (record.level() <= log::Level::Debug || TRACE_SEEN.with(|c| { let v = c.get(); c.set(v.wrapping_add(1)); v % 16 == 0 }));
+                if ambient || FORMAT_LOGS.with(|f| f.get()) {
                     LOG_RECORDS_TOTAL.fetch_add(1, Ordering::Relaxed);
                     let msg = format!("{}", record.args());
                     std::hint::black_box(&msg);
@@ -363,6 +380,7 @@ pub fn install_logger() {
 }
 
 pub fn set_log_mode(mode: u8) {
+    let mode = if mode == LOG_OFF && ambient_b() { LOG_FORMAT } else { mode };
     LOG_MODE.store(mode, Ordering::SeqCst);
     log::set_max_level(if mode == LOG_OFF { log::LevelFilter::Off } else { log::LevelFilter::Trace });
 }
